@@ -29,6 +29,24 @@ def affine (P0 P1 : StepParams) (τ : Rat) : StepParams :=
       | some x, some y => some (x + y * τ)
       | b, _ => b }
 
+/-- `nd|nd|…` (one array of exp values per axis) or `-` -/
+def parseEps (s : String) : Option (Option (List ND)) :=
+  if s = "-" then some none else ((s.splitOn "|").mapM parseND).map some
+
+def epsOf (e : Option (List ND)) : Nat → ND := fun k =>
+  match e with
+  | some l => l.getD k (ND.ofFn [] fun _ => 1)
+  | none => ND.ofFn [] fun _ => 1
+
+/-- value of a named parameter in a parameter set (what the local of that name holds) -/
+def paramOf (P : StepParams) : Gen.Py.Param → Rat
+  | .nu k => ((P.pops[k]?).map (·.nu)).getD 0
+  | .gamma k => ((P.pops[k]?).map (·.gamma)).getD 0
+  | .h k => ((P.pops[k]?).map (·.h)).getD 0
+  | .m k l => ((P.pops[k]?).map (fun p => p.ms.getD (if l < k then l else l - 1) 0)).getD 0
+  | .theta0 => P.theta0
+  | .beta => P.beta.getD 1
+
 def handle (toks : List String) : Option String :=
   match toks with
   | ["thomas", a, b, c, r] => do
@@ -102,6 +120,44 @@ def handle (toks : List String) : Option String :=
         let Pf := affine ⟨p0, th0, b0⟩ ⟨p1, th1, b1⟩
         -- fuel: generous bound, the loop stops at T by itself
         some ("ok " ++ showND (integrateFn (sweep grids fr nm false (fun _ => ND.ofFn [] fun _ => 1)) tf Pf T 8 t0 (Pf t0) phi))
+  | ["sweep", dt, frozen, nomut, theta0, beta, pops, grids, phi, eps] => do
+      -- one full time step with the Chang–Cooper option on: `eps` = exp values per axis
+      let dt ← parseRat dt; let fr ← parseBools frozen; let nm ← parseBools nomut
+      let th ← parseRat theta0; let beta ← parseOptRat beta; let pops ← parsePops pops
+      let grids ← parseGrids grids; let phi ← parseND phi; let eps ← parseEps eps
+      if grids.length ≠ phi.shape.length ∨ pops.length ≠ grids.length then some "err shape"
+      else some ("ok " ++ showND (sweep grids fr nm eps.isSome (epsOf eps) ⟨pops, th, beta⟩ dt phi))
+  | ["integ", "fn", tf, T, t0, frozen, nomut, theta0, theta1, beta0, beta1, pops0, pops1, grids, phi, eps] => do
+      let tf ← parseRat tf; let T ← parseRat T; let t0 ← parseRat t0
+      let fr ← parseBools frozen; let nm ← parseBools nomut
+      let th0 ← parseRat theta0; let th1 ← parseRat theta1
+      let b0 ← parseOptRat beta0; let b1 ← parseOptRat beta1
+      let p0 ← parsePops pops0; let p1 ← parsePops pops1
+      let grids ← parseGrids grids; let phi ← parseND phi; let eps ← parseEps eps
+      if grids.length ≠ phi.shape.length ∨ p0.length ≠ grids.length ∨ p1.length ≠ p0.length then some "err shape"
+      else
+        let Pf := affine ⟨p0, th0, b0⟩ ⟨p1, th1, b1⟩
+        some ("ok " ++ showND (integrateFn (sweep grids fr nm eps.isSome (epsOf eps)) tf Pf T 12 t0 (Pf t0) phi))
+  | ["integ", "prog", kind, tf, T, t0, frozen, nomut, theta0, theta1, beta0, beta1, pops0, pops1, grids, phi, eps] => do
+      -- the TRANSLATED time loop of the driver (Generated/Coeffs.lean `driverPrograms`, resolved), run by the statement semantics
+      let tf ← parseRat tf; let T ← parseRat T; let t0 ← parseRat t0
+      let fr ← parseBools frozen; let nm ← parseBools nomut
+      let th0 ← parseRat theta0; let th1 ← parseRat theta1
+      let b0 ← parseOptRat beta0; let b1 ← parseOptRat beta1
+      let p0 ← parsePops pops0; let p1 ← parsePops pops1
+      let grids ← parseGrids grids; let phi ← parseND phi; let eps ← parseEps eps
+      if grids.length ≠ phi.shape.length ∨ p0.length ≠ grids.length ∨ p1.length ≠ p0.length then some "err shape"
+      else
+        let const := kind == "const"
+        let d := grids.length
+        match (Gen.Py.driverPrograms.map Prog.resolve).find? (fun R => R.d == d && R.const == const) with
+        | none => some "err no_program"
+        | some R =>
+          if R.body.any (fun st => match st with | .bad _ => true | _ => false) then some "err unresolved" else
+          let Pf := affine ⟨p0, th0, b0⟩ ⟨p1, th1, b1⟩
+          let E : Prog.PEnv := { tf := tf, T := T, t0 := t0, pf := fun p τ => paramOf (Pf τ) p,
+                                 frozen := fun k => fr.getD k false, nomut := fun k => nm.getD k false }
+          some ("ok " ++ showND (Prog.run (Prog.semND grids eps.isSome (epsOf eps)) E R 12 (paramOf (Pf t0)) phi))
   | _ => none
 
 end DadiVerif.Driver.Integ
